@@ -711,7 +711,12 @@ JanetByteView janet_text_substitution(
             if (type == JANET_FUNCTION) {
                 return to_byte_view(janet_call(janet_unwrap_function(*subst), argc, argv));
             } else {
-                return to_byte_view(janet_unwrap_cfunction(*subst)(argc, argv));
+                /* The caller's match state and result buffer are not rooted: keep the collector
+                 * suspended while a C function runs, as janet_call does for functions. */
+                int handle = janet_gclock();
+                Janet ret = janet_unwrap_cfunction(*subst)(argc, argv);
+                janet_gcunlock(handle);
+                return to_byte_view(ret);
             }
         }
         default:
